@@ -42,6 +42,11 @@ def configs(tier, seed):
         for extra in ({"r": 2, "p": 2}, {"r": 2, "p": 3}) if tier == "quick" else ({"r": 2, "p": 2}, {"r": 2, "p": 3}, {"r": 3, "p": 2, "q": 2}):
             ek = "x".join(f"{l}{k}" for l, k in extra.items())
             out.append(dict(h="in_to_stock_to_in", op=solver + "layout", key=f"in_to_stock_to_in/{solver}/grid=const/n=3/extra={ek}/arrays=transposed_views", solver=solver, grid="const", n=3, extra=extra, prealloc=True))
+    # the stock-driven model object was computed before with another prescribed stock, and its cohort tables were read
+    for solver in ("manual", "lapack"):
+        for extra in ({}, {"r": 2}):
+            ek = "x".join(f"{l}{k}" for l, k in extra.items()) or "-"
+            out.append(dict(h="in_to_stock_to_in", op=solver + "again", key=f"in_to_stock_to_in/{solver}/grid=uneven/n=3/extra={ek}/stock_driven_model_computed_before", solver=solver, grid="uneven", n=3, extra=extra, again=True))
     # one lifetime model object shared by both models, its parameters set again between the two constructions
     for solver in ("manual", "lapack"):
         for first in ("idsm", "sdsm"):
@@ -54,6 +59,13 @@ def configs(tier, seed):
         for grid in ("unit", "step2"):
             for solver in ("manual", "lapack"):
                 out.append(dict(h="fixed_concrete", op="fx" + solver, key=f"fixed_concrete/{solver}/{sched}/grid={grid}", kind="sdsm_" + solver, solver=solver, sched=sched, grid=grid, n=6, extra={"r": 2}))
+    # long time dimensions (17, 33 and, in the thorough tier, 65 and 100 items) on concrete 0/1 survival tables: every
+    # obligation is linear in the symbolic stock, so the length costs little (solver loops that work in blocks, look-back
+    # windows and the like have their boundaries far beyond the small symbolic grids)
+    for n in ([17, 33] if tier == "quick" else [17, 32, 33, 64, 65, 100]):
+        for solver in ("manual", "lapack"):
+            for sched in ("zigzag", "growing"):
+                out.append(dict(h="fixed_concrete", op="fxlong" + solver, key=f"fixed_concrete/{solver}/{sched}/grid=unit/n={n}", kind="sdsm_" + solver, solver=solver, sched=sched, grid="unit", n=n, extra={}))
     return out
 
 
@@ -105,6 +117,11 @@ def run(cfg, w):
             drv = dsm.prealloc(w, shape)
             drv[...] = a.stock.values
             s = dsm.build_stock("sdsm_" + cfg["solver"], dims, lifetime=lt(), stock=drv, inflow=dsm.prealloc(w, shape), outflow=dsm.prealloc(w, shape), keep_layout=True)
+        elif cfg.get("again"):
+            s = dsm.build_stock("sdsm_" + cfg["solver"], dims, lifetime=lt(), stock=w.arr("before", shape))
+            s.compute()
+            s.get_stock_by_cohort(), s.get_outflow_by_cohort()
+            s.stock.set_values(a.stock.values.copy())
         else:
             s = dsm.build_stock("sdsm_" + cfg["solver"], dims, lifetime=lt(), stock=a.stock.values)
         s.compute()
